@@ -446,6 +446,10 @@ impl Exp {
                     format!("{} {} {}", string_lhs, op, string_rhs)
                 }
             }
+            //logic operators bind looser than every arithmetic one
+            Exp::And(_) | Exp::Or(_) | Exp::Xor(_, _) | Exp::Implies(_, _) | Exp::Iff(_, _) => {
+                format!("({})", self)
+            }
             _ => self.to_string(),
         }
     }
